@@ -517,3 +517,59 @@ mutant("rsc-push-skipped-when-empty",
        [(SC, "        let mut scopes = self.scopes.clone();\n        scopes.push(Arc::new(Mutex::new(scope)));",
              "        let mut scopes = self.scopes.clone();\n        if !scope.is_empty() || scopes.is_empty() {\n            scopes.push(Arc::new(Mutex::new(scope)));\n        }")],
        [("C04", "R04.4"), ("C20", "R20.6")], base=RSC, note="scope refactor + empty scopes not pushed")
+
+mutant("rb-logical-accepts-ints",
+       [(E, "        (Value::Bool(a), Value::Bool(b)) => {\n            let v =\n                match op {\n                    BinaryOp::And => *a && *b,",
+            "        (Value::Int(a), Value::Int(b)) => {\n            Ok(Value::Bool(*a != 0 && *b != 0))\n        },\n        (Value::Bool(a), Value::Bool(b)) => {\n            let v =\n                match op {\n                    BinaryOp::And => *a && *b,")],
+       [("C16", "R16.1")], base=RB, note="binop refactor + `&&`/`||` accept two ints")
+mutant("rb-sum-int-str",
+       [(E, "        (Value::Str(a), Value::Str(b)) => {\n            Ok(Value::Str([a.clone(), b.clone()].concat()))\n        },",
+            "        (Value::Str(a), Value::Str(b)) => {\n            Ok(Value::Str([a.clone(), b.clone()].concat()))\n        },\n        (Value::Str(a), Value::Int(b)) => {\n            Ok(Value::Str([a.clone(), b.to_string().into_bytes()].concat()))\n        },")],
+       [("C16", "R16.1")], base=RB, note="binop refactor + string + int coerces")
+mutant("rb-type-error-swapped",
+       [(E, "        source: Box::new(Error::InvalidOpTypes{\n            op: op.clone(),\n            lhs: lhs.clone(),\n            rhs: rhs.clone(),",
+            "        source: Box::new(Error::InvalidOpTypes{\n            op: op.clone(),\n            lhs: rhs.clone(),\n            rhs: lhs.clone(),")],
+       [("C16", "R16.4")], base=RB, note="binop refactor + swapped operands in the type error")
+mutant("rb-list-concat-aliases",
+       [(E, "            let a = lock_deref!(a).clone();\n            let b = lock_deref!(b).clone();\n\n            Ok(Value::List(Arc::new(Mutex::new([a, b].concat()))))",
+            "            if lock_deref!(b).is_empty() {\n                return Ok(lhs.clone());\n            }\n            let a = lock_deref!(a).clone();\n            let b = lock_deref!(b).clone();\n\n            Ok(Value::List(Arc::new(Mutex::new([a, b].concat()))))")],
+       [("C05", "R05.4")], base=RB, note="binop refactor + `xs + []` returns xs itself")
+
+RA = "refactors/astctor/patch.diff"
+mutant("ra-ctor-swaps-operands",
+       [("src/ast.rs", "            lhs: Box::new(lhs),\n            rhs: Box::new(rhs),", "            lhs: Box::new(rhs),\n            rhs: Box::new(lhs),")],
+       [("C08", "R08.2")], base=RA, note="astctor refactor + constructor helper swaps the operands")
+
+RLI = "refactors/literals/patch.diff"
+mutant("rli-items-reversed",
+       [(E, "    for item in items {\n        eval_list_item_into(context, scopes, item, &mut vals)?;\n    }\n\n    Ok(vals)",
+            "    for item in items.iter().rev() {\n        eval_list_item_into(context, scopes, item, &mut vals)?;\n    }\n    vals.reverse();\n\n    Ok(vals)")],
+       [("C14", "R14.1")], base=RLI, note="literals refactor + items evaluated right to left")
+
+RCO = "refactors/coerce/patch.diff"
+mutant("rco-bool-context-accepts-int",
+       [(E, "            Value::Bool(b) => Ok(b),\n            value => Err(value),", "            Value::Bool(b) => Ok(b),\n            Value::Int(n) => Ok(n != 0),\n            value => Err(value),")],
+       [("C16", "R16.2")], base=RCO, note="coerce refactor + conditions accept ints (selector closure widened)")
+
+RDS = "refactors/destructure/patch.diff"
+mutant("rds-collect-min-off-by-one",
+       [(B, "    let collect_index = if *collect { Some(lhs_len-1) } else { None };", "    let collect_index = if *collect { Some(lhs_len) } else { None };")],
+       [("C13", "R13.1")], base=RDS, note="destructure refactor + collector requires n items instead of n-1")
+mutant("rds-arity-selected-wrongly",
+       [(B, "    let collect_index = if *collect { Some(lhs_len-1) } else { None };", "    let collect_index = if !*collect { Some(lhs_len-1) } else { None };")],
+       [("C13", "R13.1")], base=RDS, note="destructure refactor + collect flag inverted")
+
+RLE = "refactors/locerr/patch.diff"
+mutant("rle-break-at-call-is-null",
+       [(E, "                            Escape::Break{loc} =>\n                                new_loc_err(loc, Error::BreakOutsideLoop),",
+            "                            Escape::Break{..} =>\n                                Ok(value::new_null()),")],
+       [("C07", "R07.4")], base=RLE, note="locerr refactor + break escaping a call yields null")
+mutant("rle-helper-drops-location",
+       [("src/eval/error.rs", "pub fn new_loc_err<T>(loc: Location, source: Error) -> Result<T> {", "pub fn new_loc_err<T>(loc: Location, source: Error) -> Result<T> {\n    if loc.0 == 0 {\n        return Err(source);\n    }")],
+       [("C17", "L3")], base=RLE, note="locerr refactor + helper returns a bare error for line 0")
+
+RLM = "refactors/lockmacro/patch.diff"
+mutant("rlm-op-assign-under-list-lock",
+       [(B, "                    let mut lhs_val = lock_list(&items)[n as usize].clone();\n\n                    binary_operation_assign(&mut lhs_val, rhs, op)\n                        .context(BinOpAssignListIndexFailed)?;",
+            "                    let mut guard = lock_list(&items);\n                    let mut lhs_val = guard[n as usize].clone();\n\n                    binary_operation_assign(&mut lhs_val, rhs, op)\n                        .context(BinOpAssignListIndexFailed)?;\n                    guard[n as usize] = lhs_val.clone();")],
+       [("C02", "R02.1")], base=RLM, note="lockmacro refactor + guard from a locking helper held across the operator")
